@@ -239,6 +239,10 @@ def cvc5_verdict(smt2_text, timeout_ms=8000):
         return "error:%s" % type(e).__name__
 
 
+MAX_RETRIES_PER_WORKER = 6  # (retries exist for the rare slow non-linear query; a run full of hard queries must not triple its time)
+_RETRIES = [0]
+
+
 def _solve(pc, negP, timeout_ms):
     s = z3.Solver()
     s.set("timeout", timeout_ms)
@@ -246,7 +250,8 @@ def _solve(pc, negP, timeout_ms):
     s.add(negP)
     t = time.time()
     r = s.check()
-    if r == z3.unknown:
+    if r == z3.unknown and _RETRIES[0] < MAX_RETRIES_PER_WORKER:
+        _RETRIES[0] += 1
         # the first attempt ran into its time limit (non-linear arithmetic is sensitive to the search order): two more attempts with other seeds, then the second solver;
         # only 'unsat' is taken over from a retry (a 'sat' still needs the model of THIS solver object for the replay)
         for seed_ in (7, 23):
@@ -612,7 +617,8 @@ def _worker(args):
     budget = getattr(mod, "ITEM_BUDGET_S", ITEM_BUDGET_S)
     from . import core as _core
 
-    _core.ITEM_SECONDS = budget * 0.6  # the engine gives up (Abort -> inconclusive) before the hard wall-clock budget does
+    # the engine gives up on the EXPLORATION of one configuration (Abort -> inconclusive) well before the hard wall-clock budget, which also covers the obligations
+    _core.ITEM_SECONDS = getattr(mod, "EXPLORE_BUDGET_S", budget * 0.6)
     try:
         signal.signal(signal.SIGALRM, _alarm)
     except (ValueError, AttributeError):  # not in the main thread of the worker: no budget
